@@ -29,7 +29,8 @@ def substitute(name, root):
     """placeholders of the segment alphabet: %P = the root's parent path, %L = its last component, %S = a sibling that extends that name"""
     ab = os.path.abspath(root)
     parent, last = os.path.dirname(ab).strip("/"), os.path.basename(ab)
-    return name.replace("%P", parent or "srv").replace("%S", (last or "www") + "-private").replace("%L", last or "www")
+    # %C = the root's own absolute path in the other letter case (another directory on a case-sensitive file system)
+    return name.replace("%C", ab.strip("/").swapcase() or "SRV").replace("%P", parent or "srv").replace("%S", (last or "www") + "-private").replace("%L", last or "www")
 
 
 def comps_of(path):
@@ -56,10 +57,10 @@ def run(ctx):
                 "captures and random unicode; distinct = (root, name) pairs; non-trivial = the name has an absolute-looking prefix, a '..' segment or a leading empty segment")
     ctx.assumptions += ["the root is trusted and normalised with os.path.abspath by the harness; containment is judged on path components", "POSIX os.path semantics (this platform)"]
     if ctx.quick:
-        consts = dict(SegAlpha='{"..", ".", "", "a", "b c", "...", "..a", "C:", "~", "%P", "%L", "%S"}', MaxSegs=3, Seps="<-SepsDef",
+        consts = dict(SegAlpha='{"..", ".", "", "a", "b c", "...", "..a", "C:", "~", "%P", "%L", "%S", "%C"}', MaxSegs=3, Seps="<-SepsDef",
                       AbsPrefixes="<-PrefQuick", LongAlpha='{"..", "", "a"}', LongMax=5)
     else:
-        consts = dict(SegAlpha='{"..", ".", "", "a", "b c", "..a", "C:", "%P", "%L", "%S"}', MaxSegs=4, Seps="<-SepsDef",
+        consts = dict(SegAlpha='{"..", ".", "", "a", "b c", "..a", "C:", "%P", "%L", "%S", "%C"}', MaxSegs=4, Seps="<-SepsDef",
                       AbsPrefixes="<-PrefThorough", LongAlpha='{"..", "", "a", "."}', LongMax=6)
     base = "NEXT Next\nCONSTANTS\n" + "".join((" %s <- %s\n" % (k, v[2:]) if str(v).startswith("<-") else " %s = %s\n" % (k, v)) for k, v in consts.items())
     wd = T.workdir("c17")
